@@ -26,6 +26,7 @@ void vp_sym_string_exact(QString *out, unsigned n);
 unsigned vp_cfg(unsigned i); unsigned vp_diglen();
 void vp_split_hint_begin(const QByteArray *ba, char sep); void vp_split_hint_piece(unsigned len);
 void vp_b64_expect_valid(bool on);
+void vp_index_hint_begin(const QByteArray *ba); void vp_index_hint(char c, unsigned pos);
 unsigned vp_orc_count();
 void vp_orc_seal(unsigned n); void vp_orc_reference(bool on);
 unsigned vp_orc_kind(unsigned i); unsigned vp_orc_alg(unsigned i); unsigned vp_orc_iters(unsigned i); unsigned long long vp_orc_dklen(unsigned i);
